@@ -86,6 +86,11 @@ func init() {
 			i.block("verif.Advance", func() bool { return done })
 			return nil
 		},
+		"KnownCrashIf": func(fr *frame, args []value) value {
+			fr.i.ps.knownCrashID = argStr(args[0])
+			fr.i.ps.knownCrashCond, _ = args[1].(*value)
+			return nil
+		},
 		"KnownDeadlockIf": func(fr *frame, args []value) value {
 			fr.i.ps.knownDeadlockID = argStr(args[0])
 			fr.i.ps.knownDeadlockCond, _ = args[1].(*value)
